@@ -161,11 +161,13 @@ pub struct GenParams {
     /// restrict to exactly representable amounts (used by C15)
     pub tame_numbers: bool,
     pub global_splits: bool,
+    /// opening positions for any of the securities (C16), not only the first
+    pub opening_all_secs: bool,
 }
 
 impl GenParams {
     pub fn ledger() -> GenParams {
-        GenParams { max_rows: 14, secs: vec!["FOO", "BAR", "XYZ.TO"], afs: vec!["", "Spouse", "(R)", "Spouse (R)", "My  Kid"], manual_sfla: true, splits: true, roc: true, usd_norate: true, foreign: true, sfl_column_pct: 0, loss_bias: true, shuffle: true, base_year_lo: 2005, base_year_hi: 2030, tame_numbers: false, global_splits: true }
+        GenParams { max_rows: 14, secs: vec!["FOO", "BAR", "XYZ.TO"], afs: vec!["", "Spouse", "(R)", "Spouse (R)", "My  Kid"], manual_sfla: true, splits: true, roc: true, usd_norate: true, foreign: true, sfl_column_pct: 0, loss_bias: true, shuffle: true, base_year_lo: 2005, base_year_hi: 2030, tame_numbers: false, global_splits: true, opening_all_secs: false }
     }
 }
 
@@ -227,9 +229,10 @@ pub fn build_history(intents: &[Intent], p: &GenParams, head: &Intent) -> Built 
         let variants = SPELLINGS.iter().find(|(k, _)| k == a).map(|(_, v)| *v).unwrap_or(&[]);
         if variants.is_empty() { a.to_string() } else { variants[((head.key as usize).wrapping_mul(31).wrapping_add(i * 7)) % variants.len()].to_string() }
     }).collect();
-    if head.flag % 4 == 0 {
-        let sec = secs[0];
-        let (sh, acb) = pick(head.qty, &[("10", "1000"), ("3", "10"), ("0.5", "33.33"), ("100", "0"), ("7", "100.01"), ("0", "0")]);
+    for (i, sec) in secs.iter().enumerate() {
+        let want = if p.opening_all_secs { (head.flag >> (2 * i)) % 2 == 0 } else { i == 0 && head.flag % 4 == 0 };
+        if !want { continue; }
+        let (sh, acb) = pick(head.qty.wrapping_add((i as u16).wrapping_mul(13001)), &[("10", "1000"), ("3", "10"), ("0.5", "33.33"), ("100", "0"), ("7", "100.01"), ("0", "0")]);
         opening.push((sec.to_string(), sh.to_string(), acb.to_string()));
         let e = st.entry(sec.to_string()).or_default();
         e.afs.insert("default".into(), AfState { bal: Rat::parse(sh).unwrap(), acb: Rat::parse(acb).unwrap() });
